@@ -16,7 +16,7 @@ META = dict(
                        'the paragraph reader', 'bufio / bytes.Buffer / bytes.Reader / io.ReadAll from SSA'],
     stubs=['idealised OpenPGP (engine/symgo/pgpmodel.py): abstract keys; a signature is the record (key, signed bytes); CheckDetachedSignature drains both readers and succeeds iff the key is in the keyring and the bytes are exactly the signed ones; clearsign.Decode parses an abstract armour with the structure of the real one',
            'the harness helpers verifKey / verifClearsign are real (RSA keys, clearsign.Encode) in native replays and modelled in the symbolic run'],
-    bounds={'quick': 'a signed text of one or two "K: v" fields with symbolic names and values (every byte value but newline inside a value, carriage return included), signed by one of two keys, read with each of the four keyrings (empty, either key, both), through NewParagraphReader and NewDecoder; damage: none, substitution / deletion / insertion of one symbolic byte at every position of the document, truncation at every position, foreign text appended or prepended; plain input of up to 4 arbitrary bytes never reports a signer',
+    bounds={'quick': 'a signed text of one or two "K: v" fields with symbolic names and values (every byte value but newline inside a value, carriage return included), signed by one of two keys, read with each of five keyrings (empty literal, nil list, either key, both), through NewParagraphReader and NewDecoder; damage: none, substitution / deletion / insertion of one symbolic byte at every position of the document, truncation at every position, foreign text appended or prepended; plain input of up to 4 arbitrary bytes never reports a signer',
             'thorough': 'texts with 3 fields; damage at every position with two-byte insertions'},
     outside_claim=['the cryptographic strength of OpenPGP (a tampered text makes verification fail: idealised here)', 'a nil keyring pointer (documented to switch verification off)',
                    'the exact canonicalisation clearsign applies to the signed text (trailing blanks, line endings): the model hands the signed bytes on unchanged'],
@@ -34,7 +34,7 @@ def jobs(tier):
     js = []
     for nf in texts(tier):
         for signer in (0, 1):
-            for keyring in (1, 2, 3, 4):
+            for keyring in (1, 2, 3, 4, 5):
                 for via in (False, True):
                     js.append(dict(name='clean_%d_%d_%d_%d' % (nf, signer, keyring, via), kind='signed', nf=nf, signer=signer, keyring=keyring, tamper=0, via=via))
     for nf in (1,) if tier == 'quick' else (1, 2):
@@ -53,7 +53,7 @@ def mk_text(nf, assume):
     t = ()
     for i in range(nf):
         k = symstr('k%d' % i, 1)
-        v = symstr('v%d' % i, 2)
+        v = symstr('v%d' % i, 3 if i == 0 else 2)
         assume.append(in_set(k[0], [b'ABCDEFGH', b'IJKLMNOP', b'QRSTUVWX'][i]))
         assume += [z3.And(c != 10) for c in v]
         t += tuple(k) + (58, 32) + tuple(v) + (10,)
@@ -87,7 +87,7 @@ def validation_calls(env, seed):
     # the native side runs real OpenPGP, the interpreter the idealised model: both must accept / refuse alike
     calls = [('VerifC11Signed', [b'A: b\n', 0, 2, 0, 0, 0, False]), ('VerifC11Signed', [b'A: b\nC: d\n', 1, 4, 0, 0, 0, True]), ('VerifC11Signed', [b'A: b\n', 0, 3, 0, 0, 0, False]),
              ('VerifC11Signed', [b'A: b\n', 0, 1, 0, 0, 0, False]), ('VerifC11Signed', [b'A: b\n', 0, 2, 5, 0, 0, False]), ('VerifC11Signed', [b'A: b\n', 0, 2, 6, 0, 0, False]),
-             ('VerifC11Unsigned', [b'A: b\n', 2]), ('VerifC11Unsigned', [b'', 1])]
+             ('VerifC11Unsigned', [b'A: b\n', 2]), ('VerifC11Unsigned', [b'', 1]), ('VerifC11Signed', [b'A: b\n', 0, 5, 0, 0, 0, False])]
     return calls
 
 
